@@ -30,6 +30,12 @@ func genC01(r *Rng, tier string) *Plan {
 	}
 	o := ForestOpts{MaxEnts: 6, MaxDepth: 4, Mix: mix, MaxExts: 2, Dirs: r.Bool(), Aliases: r.Bool(), ExtCase: r.Chance(1, 4),
 		KeyIDs: true, Validity: valRelative, JSONMix: r.Chance(1, 4), Manip: r.Chance(1, 4)}
+	if r.Chance(1, 12) {
+		// swarm: occasionally a large or deep forest (the statement says any depth and fan-out)
+		o.MaxEnts, o.MaxDepth, o.MaxExts = r.Range(10, 40), r.Range(3, 12), 1
+		o.Mix = KeyMix{EC: 3, Omit: 10}
+		g.P.Meta["large"] = "1"
+	}
 	g.AddForest(o, false)
 	// optional profile carrying key-id extensions
 	if r.Chance(1, 3) {
